@@ -41,6 +41,26 @@ Theorem C14_roundtrip_old_format :
 Proof. exact (@roundtrip_old_format). Qed.
 Print Assumptions C14_roundtrip_old_format.
 
+(** a hand-written pre-1.3 file in ANY white-space layout (comment lines starting with '#', one line whose tokens
+    are the dimensions, one line whose tokens are the numbers, then a blank line or the end of the file; any blanks or
+    tabs between tokens, trailing blanks, missing final newline, CR-LF endings) reads back as those numbers with an
+    empty mask (corners when mask_corners), unfolded, unlabelled.  Stated on the readline sequence. *)
+Theorem C14_pre13_any_layout :
+  forall (num : Type) (fmt : nat -> num -> string) (parse : string -> num) (round : nat -> num -> num),
+    (forall p x, parse (fmt p x) = round p x) ->
+  forall p mask_corners comment_lines h d rest sh data,
+    Forall (fun l => starts_hash l = true) comment_lines -> starts_hash h = false ->
+    sh <> [] -> split_ws h = map print_nat sh ->
+    split_ws d = map (fmt p) data -> length data = nprod sh ->
+    sall is_space (nth 0 rest "") = true ->
+    from_file_lines parse mask_corners (comment_lines ++ h :: d :: rest)
+    = Some (map (fun l => strip (stail l)) comment_lines,
+            mkSpec sh (map (round p) data)
+                   (if mask_corners then set_corners (repeat false (length data)) else repeat false (length data))
+                   false None None).
+Proof. exact (@from_file_pre13_any_layout). Qed.
+Print Assumptions C14_pre13_any_layout.
+
 Theorem C14_array_roundtrip :
   forall (num : Type) (fmt : nat -> num -> string) (parse : string -> num) (round : nat -> num -> num),
     (forall p x, parse (fmt p x) = round p x) -> (forall p x, tok_ok (fmt p x) = true) ->
